@@ -21,7 +21,10 @@ TRUSTED_BASE = [
     "the Rust correspondence harness (harness/), its baton scheduler, scripted manager/hooks/servers, "
     "trace generator (SplitMix64 from VERIF_SEED) and the Python driver that diffs projections",
     "cfg(deadpool_verif) schedule points in /repo: assumed not to change behaviour other than by "
-    "allowing a context switch",
+    "allowing a context switch; in verification builds the pools' Mutex, Semaphore and atomic counters are "
+    "the thin wrappers of src/verif.rs (same std / tokio object inside; an operation that is not directly "
+    "preceded by an explicit point and not under the pool lock is a schedule point of its own) - the "
+    "properties are shown for the build with the guard on, the shipped build differs by these wrappers",
     "modelled, not verified: tokio::sync::Semaphore (batch_semaphore.rs 1.53.1: FIFO waiters served "
     "before the counter, close fails polls, Acquire::drop passes an assigned permit on), std Mutex / "
     "atomics (each lock region / RMW is one atomic step), Rust drop order of async fn state",
